@@ -38,6 +38,7 @@ THEOREMS = [
     "Claripy.Solver.dedup_add_low", "Claripy.Solver.filter_add_spec", "Claripy.Solver.solSimplify_spec",
     "Claripy.Solver.satCacheQuery_spec", "Claripy.Solver.expansion_opt_spec", "Claripy.Solver.sL9_ok3",
     "Claripy.Solver.sol_step", "Claripy.Solver.sol_hist_giveup", "Claripy.Solver.cHyps",
+    "Claripy.Solver.sol_batchEval_top", "Claripy.Solver.tuplesOk_merge", "Claripy.Solver.si_pickle",
 ]
 TESTS = []
 CLASSES = ["Solver", "SolverCacheless", "SolverStrings"]
